@@ -323,6 +323,52 @@ package fit
 //@ pred hdrOK(h Header) := h.ProtocolVersion>>4 <= 2 && h.DataType[0] == '.' && h.DataType[1] == 'F' && h.DataType[2] == 'I' && h.DataType[3] == 'T' &&
 //@  | (h.Size == 12 || (h.Size == 14 && (h.CRC == 0 || hdrSum(h) == 0)))
 
+//@@ ------------------------------------------------------------------ output side (C05)
+//@@ ghost output of a writer: wpos bytes have been accepted, outb(w, k) is byte k
+//@ ghost func wpos(w io.Writer) int
+//@ ghost func outb(w io.Writer, k int) byte
+
+//@@ the checksum of the first twelve header bytes (what a 14-byte header stores in bytes 12-13)
+//@ spec hdr12Sum(h Header) uint16 := dyncrc16.UpdSpec(dyncrc16.UpdSpec(dyncrc16.UpdSpec(dyncrc16.UpdSpec(dyncrc16.UpdSpec(dyncrc16.UpdSpec(dyncrc16.UpdSpec(dyncrc16.UpdSpec(dyncrc16.UpdSpec(dyncrc16.UpdSpec(dyncrc16.UpdSpec(dyncrc16.UpdSpec(0, h.Size), h.ProtocolVersion), byte(h.ProfileVersion)), byte(h.ProfileVersion>>8)), byte(h.DataSize)), byte(h.DataSize>>8)), byte(h.DataSize>>16)), byte(h.DataSize>>24)), h.DataType[0]), h.DataType[1]), h.DataType[2]), h.DataType[3])
+
+//@ func (h Header) MarshalBinary() (r []byte, err error)
+//@   props C05
+//@   ensures [ok] err == nil
+//@   ensures [len] len(r) == ite(h.Size == 14, 14, 12) && fresh(r)
+//@   ensures [fields] r[0] == h.Size && r[1] == h.ProtocolVersion && r[2] == byte(h.ProfileVersion) && r[3] == byte(h.ProfileVersion>>8) &&
+//@  |   r[4] == byte(h.DataSize) && r[5] == byte(h.DataSize>>8) && r[6] == byte(h.DataSize>>16) && r[7] == byte(h.DataSize>>24) &&
+//@  |   r[8] == h.DataType[0] && r[9] == h.DataType[1] && r[10] == h.DataType[2] && r[11] == h.DataType[3]
+//@   ensures [crc] h.Size == 14 ==> r[12] == byte(hdr12Sum(h)) && r[13] == byte(hdr12Sum(h)>>8)
+//@   assigns nothing
+
+//@@ the size a definition message declares for a profile field: strings their fixed length, arrays
+//@@ element size times length, everything else the size of the base type (FIT protocol, C05)
+//@ spec defSize(f *field) byte := ite(fbase(f.t) == types.BaseString, f.length, ite(farray(f.t), byte(bsize(fbase(f.t)))*f.length, byte(bsize(fbase(f.t)))))
+//@ pred wf_encdef(def *encodeMesgDef) := len(def.fields) <= 255 && (forall k in 0..len(def.fields) :: def.fields[k] != nil && byte(def.fields[k].t)&0x1F <= 16)
+
+//@ func (e *encoder) writeDefMesg(def *encodeMesgDef) (err error)
+//@   props C05
+//@   locals rangeindex int, fdef fieldDef, f *field
+//@@ what is written for each field: its number, the size rule above and its base type, three bytes
+//@   callsite Write [field-def] fdef.num == f.num && fdef.size == defSize(f) && fdef.btype == fbase(f.t)
+//@   requires e.w != nil && (isLE(e.arch) || isBE(e.arch)) && wf_encdef(def) && 0 <= wpos(e.w) && wpos(e.w) < 1<<32
+//@@ a definition record: header 0x40|local type, reserved 0, architecture, global number in that architecture,
+//@@ field count, then (number, size, base type) per field in the order of the definition
+//@   ensures [length] err == nil ==> wpos(e.w) == old(wpos(e.w))+6+3*len(def.fields)
+//@   ensures [head] err == nil ==> outb(e.w, old(wpos(e.w))) == 0x40|(def.localMesgNum&0x0F) && outb(e.w, old(wpos(e.w))+1) == 0 && outb(e.w, old(wpos(e.w))+2) == ite(isLE(e.arch), byte(0), byte(1)) &&
+//@  |   outb(e.w, old(wpos(e.w))+3) == ite(isLE(e.arch), byte(def.globalMesgNum), byte(def.globalMesgNum>>8)) && outb(e.w, old(wpos(e.w))+4) == ite(isLE(e.arch), byte(def.globalMesgNum>>8), byte(def.globalMesgNum)) &&
+//@  |   outb(e.w, old(wpos(e.w))+5) == byte(len(def.fields))
+//@   ensures [prefix] forall k in 0..old(wpos(e.w)) :: outb(e.w, k) == old(outb(e.w, k))
+//@   assigns wpos(e.w), outb(e.w, *)
+//@   loop 0 invariant [range] -1 <= rangeindex && rangeindex < len(def.fields)
+//@   loop 0 invariant [length] wpos(e.w) == old(wpos(e.w))+6+3*(rangeindex+1)
+//@   loop 0 invariant [head] outb(e.w, old(wpos(e.w))) == 0x40|(def.localMesgNum&0x0F) && outb(e.w, old(wpos(e.w))+1) == 0 && outb(e.w, old(wpos(e.w))+2) == ite(isLE(e.arch), byte(0), byte(1)) &&
+//@  |   outb(e.w, old(wpos(e.w))+3) == ite(isLE(e.arch), byte(def.globalMesgNum), byte(def.globalMesgNum>>8)) && outb(e.w, old(wpos(e.w))+4) == ite(isLE(e.arch), byte(def.globalMesgNum>>8), byte(def.globalMesgNum)) &&
+//@  |   outb(e.w, old(wpos(e.w))+5) == byte(len(def.fields))
+//@   loop 0 invariant [prefix] forall k in 0..old(wpos(e.w)) :: outb(e.w, k) == old(outb(e.w, k))
+//@   loop 0 assigns wpos(e.w), outb(e.w, *)
+//@   loop 0 decreases len(def.fields) - rangeindex
+
 //@ func (h Header) CheckIntegrity() (err error)
 //@   props C01 C04
 //@   ensures [iff] (err == nil) <==> hdrOK(h)
